@@ -170,3 +170,55 @@ Section FoldR.
 End FoldR.
 Print Assumptions fold_entry.
 Print Assumptions fold_of_outer_product.
+
+From Coq Require Import Reals Lra.
+Local Open Scope R_scope.
+
+(* second-order folding: for ANY form cov that is additive in each argument (the covariance the translated accumulate computes is:
+   C15_source_covariance_bilinear) and any family e_0 .. e_{N-1} of reward vectors, the matrix D[a, b] = cov(e_a, e_b) folds to the matrix of
+   the FOLDED rewards f_a = e_a + e_{N-1-a}: SFS2.fold(D)[a, b] = cov(f_a, f_b) for bins that have a mirror image *)
+Section FoldCov.
+  Variable V : Type.
+  Variable add : V -> V -> V.
+  Variable cov : V -> V -> R.
+  Hypothesis cov_add_l : forall x y z, cov (add x y) z = cov x z + cov y z.
+  Hypothesis cov_add_r : forall x y z, cov z (add x y) = cov z x + cov z y.
+  Variable e : nat -> V.
+  Variable N : nat.
+
+  Definition cov_matrix : list (list R) := map (fun a => map (fun b => cov (e a) (e b)) (seq 0 N)) (seq 0 N).
+
+  Lemma sq_cov_matrix : sq N cov_matrix.
+  Proof.
+    split; [unfold cov_matrix; rewrite map_length; apply seq_length|].
+    intros a Ha. unfold cov_matrix. rewrite (nth_indep _ [] (map (fun b => cov (e 0%nat) (e b)) (seq 0 N))) by (rewrite map_length, seq_length; exact Ha).
+    rewrite (map_nth (fun a => map (fun b => cov (e a) (e b)) (seq 0 N)) (seq 0 N) 0%nat a). rewrite map_length. apply seq_length.
+  Qed.
+
+  Lemma mget_cov_matrix a b : (a < N)%nat -> (b < N)%nat -> mget OpsR cov_matrix a b = cov (e a) (e b).
+  Proof.
+    intros Ha Hb. unfold mget, cov_matrix.
+    rewrite (nth_indep _ [] (map (fun b => cov (e 0%nat) (e b)) (seq 0 N))) by (rewrite map_length, seq_length; exact Ha).
+    rewrite (map_nth (fun a => map (fun b => cov (e a) (e b)) (seq 0 N)) (seq 0 N) 0%nat a). rewrite seq_nth by exact Ha. cbn [Nat.add].
+    change (o0 OpsR) with 0. rewrite (nth_indep _ 0 (cov (e a) (e 0%nat))) by (rewrite map_length, seq_length; exact Hb).
+    rewrite (map_nth (fun b => cov (e a) (e b)) (seq 0 N) 0%nat b). rewrite seq_nth by exact Hb. reflexivity.
+  Qed.
+
+  Theorem fold_of_covariance_matrix_is_covariance_of_folded_rewards : forall a b,
+    (a < N - SFS2_w N)%nat -> (b < N - SFS2_w N)%nat ->
+    mget OpsR (SFS2_fold OpsR N cov_matrix) a b = cov (add (e a) (e (N - 1 - a)%nat)) (add (e b) (e (N - 1 - b)%nat)).
+  Proof.
+    intros a b Ha Hb. rewrite (fold_mirrored_bins N cov_matrix a b sq_cov_matrix Ha Hb).
+    rewrite !mget_cov_matrix by lia. rewrite cov_add_l, !cov_add_r. ring.
+  Qed.
+
+  (* the bin that is its own mirror image (N odd) keeps its single reward *)
+  Theorem fold_of_covariance_matrix_middle_bin : forall b,
+    (N = 2 * (N - SFS2_w N) + 1)%nat -> (b < N - SFS2_w N)%nat ->
+    mget OpsR (SFS2_fold OpsR N cov_matrix) (N - SFS2_w N) b = cov (e (N - SFS2_w N)%nat) (add (e b) (e (N - 1 - b)%nat)).
+  Proof.
+    intros b Hodd Hb. destruct (fold_middle_bin N cov_matrix b sq_cov_matrix Hodd Hb) as [H _]. rewrite H.
+    rewrite !mget_cov_matrix by lia. rewrite cov_add_r. reflexivity.
+  Qed.
+End FoldCov.
+Print Assumptions fold_of_covariance_matrix_is_covariance_of_folded_rewards.
